@@ -60,6 +60,11 @@ pub mod verif {
 	pub fn hash_key(key: &[u8], salt: &[u8; 32], uniform: bool) -> crate::Key {
 		crate::column::hash_key(key, salt, uniform, crate::options::CURRENT_VERSION)
 	}
+
+	/// `IndexTable::recover_key_prefix` for a table with `index_bits` index bits.
+	pub fn recover_key_prefix(index_bits: u8, chunk: u64, entry: u64) -> [u8; 32] {
+		crate::index::IndexTable::verif_recover_key_prefix(index_bits, chunk, entry)
+	}
 }
 
 pub const KEY_SIZE: usize = 32;
